@@ -567,6 +567,11 @@ func findObject(pd *container, path string, options *ApplyOptions) (container, s
 		return nil, ""
 	}
 
+	// A non-empty JSON pointer starts with "/" (RFC 6901).
+	if split[0] != "" {
+		return nil, ""
+	}
+
 	parts := split[1 : len(split)-1]
 
 	key := split[len(split)-1]
